@@ -27,6 +27,22 @@ CLAIMED = {
         "(generated clean streams x chunk sizes), labelled bounded and not counted as proved; hence level 'other'.",
    note="Bounded stand-in: 150 (quick) / 3000 (thorough) generated streams of up to 200 readouts. Assumed prelude contracts as for C04.",
    technique=DED + " for the per-call contracts; bounded run-time lemma check for the clean-stream composition", design="DESIGN.md section 9 C05"),
+ "C02": dict(level="other",
+   text="Deductive part (unbounded, four configurations): the exact transition of the reader on every input octet (clauses T1-T10 of _read_next's contract), the frame contracts of C01 (validity, exact payload and header fields for "
+        "any address length), the 2047-octet limit. The clean-stream lemma (every well-formed frame exactly once, in order, any chunking) is an induction over the wire using these clauses and is run as a BOUNDED stand-in on the real reader; hence 'other'.",
+   note="Bounded stand-in: 500/12000 generated clean streams (1..5 frames, addresses 1..4 octets, flag/escape payloads, header-only and 2047-octet frames, fill, noise, 4 chunking modes, 4 configurations).",
+   technique=DED + " for the transition and frame contracts; bounded run-time lemma check for the clean-stream composition", design="DESIGN.md section 9 C02"),
+ "C06": dict(level="other",
+   text="Deductive part (unbounded, four configurations): read() is entered and left with nothing unconsumed; every loop iteration is one _read_next step whose effect is a function of (mode, frame octets, raw octets, pending escape) and the "
+        "next octet (clauses T1-T10); hunt-mode trimming only skips no-op octets; the state is tied to the ghost input stream; generic fold-split lemma over an uninterpreted step function. The final induction composing these into chunk independence "
+        "is argued in DESIGN.md, not mechanised; a BOUNDED exhaustive differential run on the real reader stands in for it; hence 'other'.",
+   note="Bounded stand-in: all streams of 3 prefixes x up to 4 (quick) / 6 (thorough) octets over a 5-letter alphabet x every single cut and byte-at-a-time x 4 configurations, plus random multi-cut streams.",
+   technique=DED + " for per-step locality and the fold-split lemma; bounded differential for the composition", design="DESIGN.md section 9 C06"),
+ "C12": dict(level="proof",
+   text="Deductive: per-call contract of decode_message_payload and decode_message from the real source, decoder table read from the source, decoders abstract (outcome = function of the payload): None exactly when every decoder rejects, "
+        "otherwise the first accepting decoder in cyclic order from the remembered one (hence the remembered one whenever it accepts), previous_success_decoder names it and is unchanged when nobody accepts, decode_message agrees with "
+        "decode_message_payload(message.payload); class invariant => every history. The clause 'a genuine message is decoded by its own meter's decoder' needs rejection lemmas through the construct grammars and is NOT decided (stated).",
+   note="Assumed: each decoder's outcome on a payload is one of {dict, ConstructError, ValueError}; message.payload side-effect free.", technique=DED + "; loop unrolled over the concrete table, class invariant enumerated", design="DESIGN.md section 9 C12"),
  "C13": dict(level="proof",
    text="Deductive: per-call contract of data_received over abstract readers/messages with a ghost queue (selection of the first candidate, in list order, that returns a valid message; all messages of the selecting call forwarded; "
         "later candidates not fed; selected reader fed exactly once per call afterwards), message_received of both protocols against their forwarding predicate; message lists of any length by loop invariants. "
@@ -43,10 +59,21 @@ CLAIMED = {
         "a frame starts only right after a flag, frames never exceed 2047 octets, P1 hunt mode keeps no collected octets. The composition 'every subsequent clean message except possibly the first is delivered' is a BOUNDED stand-in "
         "(noise prefixes x clean suffixes x chunkings on the real readers), not counted as proved; hence level 'other'.",
    note="Bounded stand-in: 400/6000 HDLC and 200/3000 P1 histories.", technique=DED + " for the state claims; bounded run-time lemma check for resynchronisation", design="DESIGN.md section 9 C16"),
+ "C18": dict(level="proof",
+   text="Deductive: ghost failure counter on the strategy object - invariant _delay == 2^(n-1) (0 for n == 0), failure/reset/current_delay_sec == min(2^(n-1), max_delay) for every n and every max_delay >= 1 (unbounded, recursive pow2); "
+        "_get_back_off_time == max(back-off delay, breaker sleep); loss-breaker update; sequential contract of _try_connect (sleeps exactly the back-off time before the single factory call; failure()/reset() exactly once). "
+        "Manager-level timing under asyncio scheduling is NOT decided by per-call contracts (stated). An exhaustive enumeration of failure/reset sequences runs as a bounded cross-check.",
+   note="Assumed: datetime/timedelta as real-valued instants; _try_connect read sequentially with the closing event arbitrary at every read; factory returns, raises Exception or is cancelled.",
+   technique=DED + "; ghost counter invariant", design="DESIGN.md section 9 C18"),
  "C19": dict(level="proof",
    text="Deductive, for every history: size postconditions of read() proved from the reader invariants alone - HDLC: no consumed octet retained (len(buffer) <= len(chunk)), frame <= 2047 octets, raw frame data <= 2*2048+1; "
         "P1: len(buffer)+len(collected) <= 8191; loop termination measures. A deep-size measurement on long streams runs as an additional bounded cross-check.",
    note="Retained memory is identified with the reader's byte buffers; per-object interpreter overhead is a constant.", technique=DED + "; size postconditions from class invariants", design="DESIGN.md section 9 C19"),
+ "C20": dict(level="other",
+   text="Deductive part: to_reduced_str == reduced_str(groups) for all groups 0..255 (string theory with str.from_int), to_group_cdr_str, __hash__, __eq__ (Obis and str operands), from_string, to_obis_tupple as a function of the regex groups "
+        "with its exact ValueError condition, language of the combined pattern == the two specified forms, 'no digit-dot => ValueError'. What the capture groups are for a given text (re priority semantics) is assumed and checked by a BOUNDED "
+        "conformance / round-trip enumeration on the real code; hence 'other'.",
+   note="Bounded: 16 presence patterns x (400 boundary tuples + random) + dotted forms + malformed strings.", technique=DED + " (z3 sequence theory) + regex language equivalence; bounded conformance of re capture groups", design="DESIGN.md section 9 C20"),
 }
 NA = {
  "C17": "quantifies over asyncio task schedules and the moment close() lands between await points; per-call sequential contracts cannot express it and no installed deductive back end models the event loop (DESIGN section 9 C17)",
